@@ -19,8 +19,8 @@
     64-byte transfer unit and a sender the completion can be returned to; and
     no third party talks on the network.  Port names are arbitrary but distinct
     where akita requires it. *)
-From VMem Require Import Pmc PmcLemmas PmcProofs PmcLive PmcExamples.
-From VDrv Require Import Migration MigrationProofs.
+From VMem Require Import Pmc PmcLemmas PmcProofs PmcLive PmcBi PmcBi7 PmcExamples.
+From VDrv Require Import Migration MigrationProofs Handshake HandshakeProofs HandshakeExamples.
 Open Scope N_scope.
 
 (** [completed s]: the accepted requests for which a completion response has
@@ -159,6 +159,53 @@ Example fair_is_satisfiable : fair 49 (repeat_ev 49 demo_round) /\
   mu (run (std_sys (gen_store 3 1) (gen_store 5 2)) [ECtrlReq PA (mkMigReq CP_A CA 1024 2048 RB 128)]) = 49%nat.
 Proof. split; [apply repeat_fair|exact demo_rank]. Qed.
 
+(** ** Both directions at the same time (round 3)
+
+    A pulls pages from B while B pulls pages from A, in any interleaving: every
+    buffer, the network and both memories then carry the traffic of both
+    directions mixed.  [cf] bundles the port names, the initial memories and, per
+    memory, the region [nRO] that pages are only read from.  [ok_evb]: requests
+    may be offered to EITHER controller at any time; a request to [w] names the
+    other controller, has a page size that is a multiple of 64, reads inside the
+    other memory's read-only region and writes outside [w]'s own read-only
+    region (so a page is never read while the opposite direction overwrites it;
+    without this "the source range as it was" has no meaning).  With exactly two
+    controllers the single [requestingPMCtrlPort] field is harmless: each source
+    has one puller.  Then, for each direction [w] separately, everything the
+    one-direction theorems say holds: no panic; the read-only region of the
+    source memory is intact; the puller's memory is exactly the completed pages
+    copied in order (only the page in transfer may be partly old, partly new);
+    one completion per completed request, in order; accepted = completed ++
+    current ++ waiting.  A third puller breaks this: misrouting_witness. *)
+Theorem pmc_bidirectional : forall cf, names_okb cf ->
+  forall evs, Forall (PmcBi7.ok_evb cf) evs ->
+  let s := run (sb_init cf) evs in
+  crashed (pa s) = false /\ crashed (pb s) = false /\
+  forall w,
+    (forall a, nRO cf (other w) a -> getst (other w) s a = nS0 cf (other w) a) /\
+    match cur_mig (getp w s) with
+    | None => forall a, getst w s a = fold_left (copy_req (nS0 cf (other w))) (completedw w s) (nS0 cf w) a
+    | Some r => forall a,
+        getst w s a = fold_left (copy_req (nS0 cf (other w))) (completedw w s) (nS0 cf w) a \/
+        (mg_wr r <= a < mg_wr r + mg_size r /\ getst w s a = nS0 cf (other w) (mg_rd r + (a - mg_wr r)))
+    end /\
+    gdone w s ++ ctl_out (getp w s) ++ map MMigRsp (olist (to_ctrl (getp w s))) =
+      map (fun r => MMigRsp (mkMigRsp (nC cf w) (mg_src r))) (completedw w s) /\
+    (ndonew w s <= length (gacc w s))%nat /\
+    exists waiting, ctl_in (getp w s) = map MMigReq waiting /\
+                    gacc w s = completedw w s ++ olist (cur_mig (getp w s)) ++ waiting.
+Proof. exact bidirectional. Qed.
+Print Assumptions pmc_bidirectional.
+
+(** non-vacuity: both directions migrate concurrently on the model and both complete *)
+Example bidirectional_demo :
+  names_okb cf_std /\ Forall (PmcBi7.ok_evb cf_std) bidir_schedule /\
+  let s := run (sb_init cf_std) bidir_schedule in
+  g_done s = [MMigRsp (mkMigRsp CA CP_A)] /\ g_doneb s = [MMigRsp (mkMigRsp CB CP_B)] /\
+  read (sta s) 2048 128 = read (gen_store 5 2) 0 128 /\
+  read (stb s) 4096 64 = read (gen_store 3 1) 512 64.
+Proof. split; [exact cf_std_ok|]. split; [exact bidir_ok|exact bidir_result]. Qed.
+
 (** ** Observations about the code, outside the property's premises *)
 
 (** The source side remembers ONE requester: every pull request overwrites
@@ -236,3 +283,48 @@ Theorem driver_one_request_in_flight : forall evs,
   (dq_inflight d = 1%nat <-> dq_busy d = true).
 Proof. exact one_in_flight. Qed.
 Print Assumptions driver_one_request_in_flight.
+
+(** ** The drain - shootdown - migrate - restart handshake of the driver
+
+    [VDrv.Handshake] transcribes the migration part of Driver.Tick (send one
+    queued command, send the MMU answer, send one page request unless one is in
+    flight, process one response from the GPU port, take the next MMU request
+    when idle).  [hvalid]: the environment is any sequence of ticks, MMU
+    requests (GPU numbers in range), takes from the two ports, and responses of
+    command processors - a response of a kind only if more commands of that
+    kind were sent than responses of it delivered.  Then, for the request being
+    handled: what was sent plus what is queued is a prefix of
+    drains(all GPUs) ++ shootdowns(accessing GPUs) ++ page requests ++ GPU
+    restarts(accessing GPUs) ++ RDMA restarts(all GPUs), in exactly that order;
+    a shootdown is sent only after every drain acknowledgement; a page request
+    only after every drain and shootdown acknowledgement; at most one page
+    request is unanswered; GPU restarts only after every page completion; RDMA
+    restarts only after every GPU restart acknowledgement; no panic. *)
+Theorem handshake_order : forall n evs,
+  hvalid (hs_init n) evs ->
+  let s := hrun (hs_init n) evs in
+  h_crashed s = false /\
+  match h_cur s with
+  | None => h_tosend s = [] /\ h_migq s = [] /\ h_gpu_in s = []
+  | Some q =>
+    let full := bD n ++ bS n q ++ bM n q ++ bR q ++ bRR n in
+    (exists rest, (Handshake.g_sent s ++ h_tosend s ++ h_migq s) ++ rest = full) /\
+    ((0 < sentk RShoot (Handshake.g_sent s))%nat -> A s RDrain = n) /\
+    ((0 < sentk RMig (Handshake.g_sent s))%nat -> A s RDrain = n /\ A s RShoot = LN (mr_accessing q)) /\
+    (N.of_nat (sentk RMig (Handshake.g_sent s)) <= A s RMig + 1) /\
+    ((0 < sentk RRestart (Handshake.g_sent s))%nat -> A s RMig = LN (bM n q) /\ sentk RMig (Handshake.g_sent s) = length (bM n q)) /\
+    ((0 < sentk RRdmaRestart (Handshake.g_sent s))%nat -> A s RRestart = LN (mr_accessing q))
+  end.
+Proof. exact HandshakeProofs.handshake_order. Qed.
+Print Assumptions handshake_order.
+
+(** non-vacuity: a complete valid handshake on the model *)
+Example handshake_demo :
+  hvalid (hs_init 2) demo_hs /\
+  let s := hrun (hs_init 2) demo_hs in
+  h_cur s = None /\ h_crashed s = false /\
+  Handshake.g_sent s = [CDrain 0; CDrain 1; CShoot 0 [4096; 8192] 7; CShoot 1 [4096; 8192] 7;
+              CMig 1 1 4096 4096; CMig 1 1 4096 8192; CRestart 0; CRestart 1;
+              CRdmaRestart 0; CRdmaRestart 1] /\
+  h_mmu_out s = [mkMRsp 50 [4096; 8192] true].
+Proof. split; [exact demo_hs_valid|exact demo_hs_result]. Qed.
